@@ -215,7 +215,7 @@ fn enc_tr(log: &TrLog) -> Vec<String> {
     out
 }
 
-fn chals<F: PrimeField>(log: &TrLog) -> Vec<F> {
+pub fn chals<F: PrimeField>(log: &TrLog) -> Vec<F> {
     let mut v: Vec<F> = log
         .ops
         .iter()
@@ -400,6 +400,8 @@ pub fn gen_cases<G: AffineRepr>(seed: u64, tier: &str, stream: &str, curve_idx: 
         ("mutfields", false) => 36,
         ("mutfields", true) => 72,
         ("violate", false) => 16,
+        ("statement", false) => 28,
+        ("statement", true) => 112,
         (_, false) => 8,
         (_, true) => 40,
     };
@@ -532,6 +534,70 @@ pub fn gen_cases<G: AffineRepr>(seed: u64, tier: &str, stream: &str, curve_idx: 
                     .take(90)
                     .collect();
                 c.muts = vec![m];
+                out.push(c);
+            }
+            // statement / context deviations on the verifier side (C05): the proof is honest, the verifier's statement is not the prover's
+            "statement" => {
+                let kinds = 14;
+                let kind = k % kinds;
+                let sh = Shape { commits: 2 + rng.gen_range(0..2), ops1: 1 + rng.gen_range(0..3), closures: if k % 3 == 0 { 1 } else { 0 }, ops2: 1 + rng.gen_range(0..3), allow_missing: false };
+                let mut g = gen_program::<F<G>>(&mut rng, &sh);
+                // user data before and (when there is a closure) during construction
+                g.prog.insert(0, COp::Msg(LABELS[4], b"context-A".to_vec()));
+                let mut closure_at = None;
+                for (i, op) in g.prog.iter_mut().enumerate() {
+                    if let COp::Randomize(body) = op {
+                        body.insert(0, ROp::Msg(LABELS[3], b"inner-A".to_vec()));
+                        closure_at = Some(i);
+                        break;
+                    }
+                }
+                // make sure the circuit has a gate and a constraint over two committed values with non-zero values
+                let vals: Vec<(usize, F<G>, F<G>)> = g.prog.iter().enumerate().filter_map(|(i, o)| if let COp::Commit(v, vb) = o { Some((i, *v, *vb)) } else { None }).collect();
+                g.prog.push(COp::AllocMul(Some((F::<G>::rand(&mut rng), F::<G>::rand(&mut rng)))));
+                let c1 = F::<G>::rand(&mut rng);
+                let c2 = F::<G>::rand(&mut rng);
+                let cpos = g.prog.len();
+                g.prog.push(COp::Constrain(vec![(V::Committed(0), Sx::C(c1)), (V::Committed(1), Sx::C(c2)), (V::One, Sx::C(-(c1 * vals[0].1 + c2 * vals[1].1)))]));
+                let n = (g.n1 + g.n2 + 1).next_power_of_two();
+                let dim = 2 + 2 * n;
+                let coeffs = |v: F<G>, vb: F<G>| { let mut co = vec![F::<G>::zero(); dim]; co[0] = v; co[1] = vb; co };
+                let mut c = R1csCase::plain(id, g.prog.clone(), n, n, rng.gen());
+                let ncom = vals.len();
+                let mut vprog = g.prog.clone();
+                let mut vcommit: Vec<Option<Vec<F<G>>>> = vec![None; ncom];
+                let name;
+                match kind {
+                    0 => { let i = rng.gen_range(0..ncom); vcommit[i] = Some(coeffs(vals[i].1 + F::<G>::from(1u64), vals[i].2)); name = format!("different-commitment-value i={}", i); }
+                    1 => { let i = rng.gen_range(0..ncom); vcommit[i] = Some(coeffs(vals[i].1, vals[i].2 + F::<G>::from(1u64))); name = format!("different-commitment-blinding i={}", i); }
+                    2 => { vcommit[0] = Some(coeffs(vals[1].1, vals[1].2)); vcommit[1] = Some(coeffs(vals[0].1, vals[0].2)); name = "reordered-commitments 0<->1".into(); }
+                    3 => { vprog.push(COp::Commit(F::<G>::from(5u64), F::<G>::from(7u64))); vcommit.push(Some(coeffs(F::<G>::from(5u64), F::<G>::from(7u64)))); name = "extra-commitment".into(); }
+                    4 => {
+                        // the prover has one more (unused) commitment than the verifier
+                        c.prog.push(COp::Commit(F::<G>::from(5u64), F::<G>::from(7u64)));
+                        name = "missing-commitment".into();
+                    }
+                    5 => { if let COp::Constrain(t) = &mut vprog[cpos] { let bump = if vals[0].1.is_zero() { 1 } else { 0 }; if let Sx::C(x) = &mut t[bump].1 { *x += F::<G>::from(1u64); } } name = "changed-coefficient".into(); }
+                    6 => { if let COp::Constrain(t) = &mut vprog[cpos] { if let Sx::C(x) = &mut t[2].1 { *x += F::<G>::from(1u64); } } name = "changed-constant".into(); }
+                    7 => { c.vlabel = b"verif-casE"; name = "different-label".into(); }
+                    8 => { vprog[0] = COp::Msg(LABELS[4], b"context-B".to_vec()); name = "different-app-data-before".into(); }
+                    9 => { vprog.remove(0); name = "missing-app-data-before".into(); }
+                    10 => {
+                        if let Some(i) = closure_at { if let COp::Randomize(body) = &mut vprog[i] { body[0] = ROp::Msg(LABELS[3], b"inner-B".to_vec()); } name = "different-app-data-during".into(); }
+                        else { vprog[0] = COp::Msg(LABELS[5], b"context-A".to_vec()); name = "different-app-data-label".into(); }
+                    }
+                    11 => { let mut b = vec![F::<G>::zero(); dim]; b[0] = F::<G>::from(1u64); let mut bb = vec![F::<G>::zero(); dim]; bb[1] = F::<G>::from(1u64); bb[2] = F::<G>::from(1u64); c.vbases = Some((b, bb)); name = "different-blinding-base".into(); }
+                    12 => { let mut b = vec![F::<G>::zero(); dim]; b[0] = F::<G>::from(1u64); b[2 + n] = F::<G>::from(1u64); let mut bb = vec![F::<G>::zero(); dim]; bb[1] = F::<G>::from(1u64); c.vbases = Some((b, bb)); name = "different-value-base".into(); }
+                    _ => { name = "none".into(); }
+                }
+                if kind == 4 {
+                    // verifier program = the original one (without the extra commitment)
+                    c.vprog = Some(g.prog.clone());
+                } else {
+                    c.vprog = Some(vprog);
+                }
+                c.vcommit = vcommit;
+                c.tag = format!("statement {} n1={} n2={} m={}", name, g.n1, g.n2, ncom);
                 out.push(c);
             }
             // capacity grid (C17): fixed program per (n1, n2), every capacity pair
